@@ -35,8 +35,16 @@ fn part_c(prop: &str, tier: &str, sink: &Sink, ev: &mut Evidence) {
     } else {
         vec![(tier, true, false), ("tiny", true, true), ("exotic", false, false), ("bits", false, false), ("longtag", false, false)]
     };
+    // VERIF_LEAFSETS=exotic,longtag restricts a run to some leaf sets (used only to re-verify a
+    // change to one leaf set quickly; the registered commands never set it)
+    let only: Option<Vec<String>> = std::env::var("VERIF_LEAFSETS").ok().map(|v| v.split(',').map(|x| x.to_string()).collect());
     let mut per_run = vec![];
     for (leafset, depth2, depth3) in runs {
+        if let Some(o) = &only {
+            if !o.iter().any(|x| x == leafset) {
+                continue;
+            }
+        }
         let (e, out) = engine_c::explore(prop, leafset, sink, depth2, triples && leafset != "exotic" && leafset != "longtag" && !leafset.starts_with("bits"), depth3);
         let c = &out.counters;
         ev.evaluations += c.pairs + c.new_states + c.triples;
